@@ -89,9 +89,19 @@ def grep_forbidden():
     return hits
 
 
-def audit_axioms(pid):
-    """Run `#print axioms` for the property's theorems. Returns
-    (theorems: {name: [axioms]}, ok, log)."""
+def audit_axioms(pid, modules=None):
+    """Run `#print axioms` for the property's theorems (one Audit file per
+    module). Returns (theorems: {name: [axioms]}, ok, log)."""
+    thms, ok, log = {}, True, ""
+    for m in (modules or [pid]):
+        t, o, l = _audit_one(m)
+        thms.update(t)
+        ok = ok and o
+        log += l
+    return thms, ok, log
+
+
+def _audit_one(pid):
     f = os.path.join(LEAN, "RaftLogModel", "Audit", f"{pid}.lean")
     if not os.path.exists(f):
         return {}, False, f"missing {f}"
